@@ -140,6 +140,38 @@ def stage_caches(ctx, cov):
     return {"traces": [(o, "Trace_Caches") for o in outs]}
 
 
+RE_VEC = re.compile(r'<<"VEC", "(.*)">>')
+
+
+def stage_measures(ctx, cov):
+    """Gen_Measures (TLC enumerates simplices with their exact ingredients) -> vdrive measures -> Trace_Pure"""
+    thorough = ctx.tier == "thorough"
+    cfgp = os.path.join(ctx.wdir, "Gen_Measures_run.cfg")
+    base = open(os.path.join(ctx.spec, "Gen_Measures.cfg")).read()
+    if thorough:
+        base = base.replace("G2 = 4", "G2 = 5").replace("G3 = 2", "G3 = 3").replace("Stride = 3", "Stride = 1")
+    open(cfgp, "w").write(base)
+    t0 = time.time()
+    rc, txt = ctx.run_tlc("Gen_Measures.tla", cfgp, os.path.join(ctx.wdir, "genm_meta"), workers=1, timeout=1500, xmx="4g")
+    if rc is None or "Model checking completed" not in txt:
+        return {"tool_error": "Gen_Measures failed:\n" + (txt or "")[-2000:]}
+    vecs = []
+    for line in txt.split("\n"):
+        mm = RE_VEC.match(line.strip())
+        if mm:
+            vecs.append(mm.group(1).encode().decode("unicode_escape"))
+    vecs = sorted(set(vecs))
+    cov["generated_vectors"] = len(vecs)
+    cov["exhaustive"] = True
+    ctx.log("Gen_Measures: %d simplices with exact ingredients in %.1fs" % (len(vecs), time.time() - t0))
+    vf = os.path.join(ctx.wdir, "vectors.ndjson")
+    open(vf, "w").write("\n".join(vecs) + "\n")
+    outs, err = drive_family(ctx, "measures", 14, ["--hist", vf])
+    if err:
+        return {"tool_error": err}
+    return {"traces": [(o, "Trace_Pure") for o in outs]}
+
+
 def _run(cmd, **kw):
     return subprocess.run(cmd, stdout=subprocess.PIPE, stderr=subprocess.STDOUT, text=True, **kw)
 
@@ -194,6 +226,14 @@ def execute(plan, ctx):
             return {"tool_error": err}
         ctx.log("drove %s: %d traces in %.1fs" % (fam, len(outs), time.time() - t0))
         traces += [(o, "Trace_API") for o in outs]
+    for fam, nq, nt in plan.get("pure_families", []):
+        n = nt if thorough else nq
+        t0 = time.time()
+        outs, err = drive_family(ctx, fam, n)
+        if err:
+            return {"tool_error": err}
+        ctx.log("drove %s: %d traces in %.1fs" % (fam, len(outs), time.time() - t0))
+        traces += [(o, "Trace_Pure") for o in outs]
     for stage in plan.get("stages", []):
         r = stage(ctx, cov)
         if r.get("tool_error"):
@@ -238,6 +278,8 @@ def execute(plan, ctx):
                                               {"ev": e["ev"], "tag": e["tag"], "res": e.get("res")})
                     keys.add(key)
     cov["distinct_nontrivial"] = len(keys)
+    if plan.get("explanation"):
+        cov["explanation"] = plan["explanation"]
     if not cov["samples"]:
         cov["samples"].append({"note": "no non-trivial case in this run"})
     return result
@@ -313,6 +355,26 @@ PLANS = {
                      "class, compared by TLC with face enumeration of the logged cells; missing vertex and cell keys. "
                      "distinct non-trivial = distinct Queries events",
                 nontrivial=_key_any({"Queries"})),
+    "C12": dict(level="model_checking", pure_families=[("predicates", 14, 16)],
+                rule="every (simplex, query) tuple on the 3x3 grid (2-D, exhaustive) and on the unit cube (3-D, exhaustive "
+                     "in the thorough tier, 1/5 sample in quick), random lattice tuples D=2..5 incl. forced degenerate "
+                     "and on-vertex queries, in three scale classes (2^0, moderate, extreme), each under all (D<=3) / 12 "
+                     "sampled vertex permutations and all formulations (both kernels, simplex_orientation, "
+                     "robust_orientation, insphere, insphere_lifted, insphere_distance, robust_insphere); TLC computes the "
+                     "exact integer sign and the decidability band. distinct non-trivial = distinct (D, s, points, query)",
+                nontrivial=lambda e: ((e["ev"], json.dumps(e.get("args"), sort_keys=True)) if e["ev"] == "Pred" else None)),
+    "C18": dict(level="other", stages=[stage_measures],
+                rule="TLC (Gen_Measures) enumerates every simplex with first vertex at the origin on small grids for "
+                     "D=1..3 and a deterministic sample on {0,1,2}^D for D=4,5, with the exact integer ingredients of every "
+                     "measure; each is replayed 5 times (identity, vertex permutation, lattice translation, scaling by 2^k, "
+                     "all three) against simplex_volume, facet_measure, circumcenter, circumradius, inradius, radius_ratio, "
+                     "normalized_volume. distinct non-trivial = distinct (points, transform) replayed",
+                explanation="The TLA+ specification decides the exact value of every measure (integer determinants, Gram "
+                            "determinants, Cramer numerators) and the degeneracy class, and TLC re-derives the determinant "
+                            "of every replayed vector; closeness of the library's f64 result to that exact value (relative "
+                            "1e-9) is a one-line float comparison in the harness, because TLC has no reals. Level 'other': "
+                            "spec-generated exact vectors replayed into the implementation.",
+                nontrivial=lambda e: ((e["ev"], json.dumps(e.get("args"), sort_keys=True)) if e["ev"] == "Measure" else None)),
     "C03": dict(level="fault_enumeration", families=[("remove", 8, 16), ("insert", 8, 16), ("flips", 8, 16), ("repair", 8, 16)],
                 rule="every mutating call that returned Err or Skipped in the insert/remove/flip/repair histories "
                      "(natural failures: duplicates, reused uuids, degenerate points, non-flippable / boundary / "
